@@ -2,6 +2,7 @@ import PromModel.Labels.StableHash
 import PromModel.Suites.ShardSuite
 import PromProofs.StableHash
 import PromProofs.ShardSelect
+import PromProofs.ShardCanon
 /-
   C18 — Query sharding partitions series deterministically.
   Property theorems only; helper lemmas live in PromProofs/StableHash.lean and PromProofs/ShardSelect.lean.
@@ -67,6 +68,21 @@ example : shardedPostings (fun x : Nat => UInt64.ofNat x) [1, 2, 3, 4, 5, 6] 1 3
     of the serialisation, whichever path is taken and however the pieces fall on the digest's 32-byte stripes. -/
 theorem shard_depends_only_on_labels (ls : Labels) : stableHashGo ls = xxhash64 (serialise ls) :=
   stableHashGo_eq ls
+
+/-- The canonical form every constructor produces (sorted by name; `labels.Builder` first drops
+    empty values) — and therefore the stable hash and the shard — does not depend on the order in which the
+    labels of a set with distinct names are supplied. -/
+theorem hash_independent_of_construction_order (via : Prom.Shard.Via) (ls₁ ls₂ : Labels)
+    (hp : ls₁.Perm ls₂) (hd : DistinctNames ls₁) :
+    stableHashGo (Prom.Shard.canon via ls₁) = stableHashGo (Prom.Shard.canon via ls₂) := by
+  rw [canon_perm via ls₁ ls₂ hp hd]
+
+example : DistinctNames [⟨[0x62], [0x31]⟩, ⟨[0x61], []⟩] ∧
+    ([⟨[0x62], [0x31]⟩, ⟨[0x61], []⟩] : Labels).Perm [⟨[0x61], []⟩, ⟨[0x62], [0x31]⟩] := by
+  refine ⟨?_, List.Perm.swap _ _ _⟩
+  intro a ha b hb h
+  simp at ha hb
+  rcases ha with rfl | rfl <;> rcases hb with rfl | rfl <;> simp_all
 
 /-- The streaming digest (`New`, any sequence of `Write`s, `Sum64`) equals the one-shot `Sum64` of the
     concatenation. -/
